@@ -160,21 +160,177 @@ Definition WriteReadSpec (c : chart) (out : option chart) : Prop :=
 Theorem read_specb_sound doc out : read_specb doc out = true -> ReadSpec doc out.
 Proof.
   unfold read_specb, ReadSpec. destruct out as [c|]; [|discriminate].
-  destruct (qua_denote doc) as [e|]; [|discriminate]. destruct (chart_denote c) as [a|]; [|discriminate].
-  intro H. exists c, e, a. split; [reflexivity|]. split; [reflexivity|]. split; [reflexivity|]. apply den_eqb_sound; exact H.
+  destruct (qua_denote doc) as [e|] eqn:E1; [|discriminate]. destruct (chart_denote c) as [a|] eqn:E2; [|discriminate].
+  intro H. exists c, e, a. split; [reflexivity|]. split; [reflexivity|]. split; [exact E2|]. apply den_eqb_sound; exact H.
 Qed.
 Theorem write_specb_sound c out : write_specb c out = true -> WriteSpec c out.
 Proof.
   unfold write_specb, WriteSpec. destruct out as [d|]; [|discriminate]. intro H.
   apply andb_true_iff in H. destruct H as [W H].
-  destruct (qua_denote d) as [e|]; [|discriminate]. destruct (chart_denote c) as [a|]; [|discriminate].
+  destruct (qua_denote d) as [e|] eqn:E1; [|discriminate]. destruct (chart_denote c) as [a|] eqn:E2; [|discriminate].
   apply andb_true_iff in H. destruct H as [H1 H2].
-  exists d, e, a. split; [reflexivity|]. split; [exact W|]. split; [reflexivity|]. split; [reflexivity|].
+  exists d, e, a. split; [reflexivity|]. split; [exact W|]. split; [exact E1|]. split; [reflexivity|].
   split; [apply den_closeb_sound; exact H1|exact H2].
 Qed.
 Theorem wr_specb_sound c out : wr_specb c out = true -> WriteReadSpec c out.
 Proof.
   unfold wr_specb, WriteReadSpec. destruct out as [c'|]; [|discriminate].
-  destruct (chart_denote c) as [e|]; [|discriminate]. destruct (chart_denote c') as [a|]; [|discriminate].
-  intro H. exists c', e, a. split; [reflexivity|]. split; [reflexivity|]. split; [reflexivity|]. apply den_closeb_sound; exact H.
+  destruct (chart_denote c) as [e|] eqn:E1; [|discriminate]. destruct (chart_denote c') as [a|] eqn:E2; [|discriminate].
+  intro H. exists c', e, a. split; [reflexivity|]. split; [reflexivity|]. split; [exact E2|]. apply den_closeb_sound; exact H.
+Qed.
+
+(* ------------------------------------------------------------------ the to_yaml pipelines, row by row *)
+Lemma omap_bind {A B C} (f : A -> option B) (g : B -> option C) (l : list A) :
+  omap f l >>= omap g = omap (fun x => f x >>= g) l.
+Proof.
+  induction l as [|x l IH]; [reflexivity|]. simpl.
+  destruct (f x) as [y|]; simpl.
+  - destruct (omap f l) as [r|]; simpl in *.
+    + rewrite <- IH. reflexivity.
+    + rewrite <- IH. destruct (g y); reflexivity.
+  - reflexivity.
+Qed.
+Lemma omap_some_map {A B} (f : A -> option B) (h : A -> B) (l : list A) :
+  (forall x, In x l -> f x = Some (h x)) -> omap f l = Some (map h l).
+Proof.
+  induction l as [|x l IH]; intro H; [reflexivity|]. simpl.
+  rewrite (H x (or_introl eq_refl)). rewrite IH; [reflexivity|]. intros y Hy. apply H. right. exact Hy.
+Qed.
+
+(* cells of a well-typed chart, and what the writer makes of them *)
+Definition trunc_cell (v : ytree) : Z := match v with YInt z => z | YFloat q => qtrunc q | _ => 0 end.
+Definition lane_cell (v : ytree) : Z := match v with YInt z => z + 1 | YFloat q => qtrunc (Qred (q + 1)) | _ => 0 end.
+Definition sum_cell (a b : ytree) : Z :=
+  match cell_add a b with Some v => trunc_cell v | None => 0 end.
+
+Definition hit_row (x : ytree * ytree * ytree) : row :=
+  let '(o, c, k) := x in [(N_offset, o); (N_column, c); (N_keysounds, k)].
+Definition canon_hits (l : list (ytree * ytree * ytree)) : frame :=
+  mkFrame [N_offset; N_column; N_keysounds] (map hit_row l).
+Definition hit_out (x : ytree * ytree * ytree) : row :=
+  let '(o, c, k) := x in [(K_StartTime, YInt (trunc_cell o)); (K_Lane, YInt (lane_cell c)); (K_KeySounds, k)].
+
+Lemma is_num_cases v : is_num v = true -> (exists z, v = YInt z) \/ (exists q, v = YFloat q).
+Proof. destruct v; simpl; intro H; try discriminate; eauto. Qed.
+
+Lemma hits_to_yaml_rows rows :
+  hits_to_yaml (mkFrame [N_offset; N_column; N_keysounds] rows)
+  = omap (fun r => row_upd N_column plus1 r >>= row_upd N_offset cast_int >>= row_upd N_column cast_int) rows
+    >>= fun rs => Some (map (map (fun kv => (ren1 ren_out (fst kv), snd kv))) rs).
+Proof.
+  rewrite <- !omap_bind. unfold hits_to_yaml, fr_map_col.
+  change (fr_has N_column {| f_cols := [N_offset; N_column; N_keysounds]; f_rows := rows |}) with true. cbv iota. cbn [f_rows f_cols].
+  destruct (omap (row_upd N_column plus1) rows) as [r1|]; [|reflexivity]. cbn [bind].
+  change (fr_has N_offset {| f_cols := [N_offset; N_column; N_keysounds]; f_rows := r1 |}) with true. cbv iota. cbn [f_rows f_cols].
+  destruct (omap (row_upd N_offset cast_int) r1) as [r2|]; [|reflexivity]. cbn [bind].
+  change (fr_has N_column {| f_cols := [N_offset; N_column; N_keysounds]; f_rows := r2 |}) with true. cbv iota. cbn [f_rows f_cols].
+  destruct (omap (row_upd N_column cast_int) r2) as [r3|]; reflexivity.
+Qed.
+
+Lemma hit_row_written x :
+  let '(o, c, k) := x in
+  is_num o = true -> cell_col c = true ->
+  (row_upd N_column plus1 (hit_row x) >>= row_upd N_offset cast_int >>= row_upd N_column cast_int)
+  = Some [(N_offset, YInt (trunc_cell o)); (N_column, YInt (lane_cell c)); (N_keysounds, k)].
+Proof.
+  destruct x as [[o c] k]. intros Ho Hc.
+  destruct (is_num_cases o Ho) as [[z ->]|[q ->]];
+  (destruct c as [zc|qc| | | | | |]; try discriminate Hc; reflexivity).
+Qed.
+
+Lemma qtrunc_comp (x y : Q) : (x == y)%Q -> qtrunc x = qtrunc y.
+Proof.
+  intro E. unfold qtrunc. rewrite (Qleb_comp 0%Q 0%Q (Qeq_refl 0%Q) x y E).
+  destruct (Qle_bool 0 y); [apply Qfloor_comp; exact E|]. f_equal. apply Qfloor_comp. rewrite E. reflexivity.
+Qed.
+
+(* the written lane is the lane of the cell (column + 1), also for a column stored as an integral float *)
+Lemma lane_cell_is_lane_of c l : lane_of c = Some l -> lane_cell c = l.
+Proof.
+  destruct c as [z|q| | | | | |]; cbn [lane_of lane_cell]; intro H; try discriminate.
+  - inversion H. reflexivity.
+  - destruct (Qeq_bool q (inject_Z (Qfloor q))) eqn:E; [|discriminate]. inversion H; subst. apply Qeq_bool_iff in E.
+    rewrite (qtrunc_comp _ (inject_Z (Qfloor q + 1))); [apply qtrunc_inject|].
+    eapply Qeq_trans; [apply Qred_correct|]. rewrite inject_Z_plus. change (inject_Z 1) with 1%Q. lra.
+Qed.
+
+Definition hit_ok (x : ytree * ytree * ytree) : bool := let '(o, c, k) := x in is_num o && cell_col c && is_ks k.
+
+(* QuaHitList.to_yaml on a list with the declared columns: one record per row, StartTime = int(offset),
+   Lane = column + 1, KeySounds untouched *)
+Theorem hits_to_yaml_canonical l : forallb hit_ok l = true -> hits_to_yaml (canon_hits l) = Some (map hit_out l).
+Proof.
+  intro H. unfold canon_hits. rewrite hits_to_yaml_rows.
+  set (h := fun r : row => match r with
+                           | [(_, o); (_, c); (_, k)] => [(N_offset, YInt (trunc_cell o)); (N_column, YInt (lane_cell c)); (N_keysounds, k)]
+                           | _ => [] end).
+  assert (E: omap (fun r : row => row_upd N_column plus1 r >>= row_upd N_offset cast_int >>= row_upd N_column cast_int)
+                  (map hit_row l) = Some (map h (map hit_row l))).
+  { apply omap_some_map. intros r Hr. apply in_map_iff in Hr. destruct Hr as [[[o c] k] [<- Hx]].
+    rewrite forallb_forall in H. specialize (H _ Hx). unfold hit_ok in H.
+    apply andb_true_iff in H. destruct H as [H Hk]. apply andb_true_iff in H. destruct H as [Ho Hc].
+    exact (hit_row_written (o, c, k) Ho Hc). }
+  rewrite E. cbn [bind]. f_equal. rewrite !map_map. apply map_ext. intros [[o c] k]. reflexivity.
+Qed.
+
+Lemma is_ks_ks_of k : is_ks k = true -> exists ks, ks_of k = Some ks.
+Proof. destruct k; try discriminate. simpl. intro H. rewrite H. eauto. Qed.
+Lemma texts_eqb_refl ks : texts_eqb ks ks = true.
+Proof.
+  induction ks as [|t ks IH]; [reflexivity|]. simpl. rewrite IH.
+  assert (X: text_eqb t t = true) by (induction t as [|a t IHt]; [reflexivity|]; simpl; rewrite Z.eqb_refl; exact IHt).
+  rewrite X. reflexivity.
+Qed.
+
+Local Opaque lane_of ks_of is_ks texts_eqb.
+(* every record written for a hit is well-formed and denotes the hit with its time moved by < 1 ms *)
+Theorem hit_out_ok x : hit_ok x = true ->
+  rec_okb note_keys (YMap (hit_out x)) = true /\
+  exists n n', note_denote (YMap (hit_out x)) = Some n /\ hit_row_denote (hit_row x) = Some n' /\ note_closeb n n' = true.
+Proof.
+  destruct x as [[o c] k]. unfold hit_ok. intro H.
+  apply andb_true_iff in H. destruct H as [H Hk]. apply andb_true_iff in H. destruct H as [Ho Hc].
+  unfold cell_col in Hc. destruct (lane_of c) as [l|] eqn:El; [|discriminate].
+  pose proof (lane_cell_is_lane_of c l El) as Hl.
+  destruct (is_ks_ks_of k Hk) as [ks Eks].
+  destruct (is_num_cases o Ho) as [[z ->]|[q ->]].
+  - split.
+    + unfold rec_okb, note_keys, hit_out, K_KeySounds, K_StartTime, K_Lane, K_EndTime; simpl. rewrite ?Hl, ?Hc, ?Hk. reflexivity.
+    + exists (mkNote l (inject_Z z) None ks), (mkNote l (inject_Z z) None ks).
+      unfold note_denote, hit_row_denote, get_default, hit_out, hit_row, K_KeySounds, K_StartTime, K_Lane, K_EndTime, N_offset, N_column, N_keysounds; simpl. rewrite ?Hl, ?El, ?Eks. split; [reflexivity|]. split; [reflexivity|].
+      unfold note_closeb. simpl. rewrite Z.eqb_refl. simpl.
+      rewrite texts_eqb_refl. rewrite andb_true_r. apply lt1_true. apply Qabs_lt1; lra.
+  - split.
+    + unfold rec_okb, note_keys, hit_out, K_KeySounds, K_StartTime, K_Lane, K_EndTime; simpl. rewrite ?Hl, ?Hc, ?Hk. reflexivity.
+    + exists (mkNote l (inject_Z (qtrunc q)) None ks), (mkNote l q None ks).
+      unfold note_denote, hit_row_denote, get_default, hit_out, hit_row, K_KeySounds, K_StartTime, K_Lane, K_EndTime, N_offset, N_column, N_keysounds; simpl. rewrite ?Hl, ?El, ?Eks. split; [reflexivity|]. split; [reflexivity|].
+      unfold note_closeb. simpl. rewrite Z.eqb_refl. simpl.
+      rewrite texts_eqb_refl. rewrite andb_true_r. apply lt1_true.
+      pose proof (qtrunc_lt1 q) as Q1. rewrite <- Qabs_opp.
+      setoid_replace (- (inject_Z (qtrunc q) - q))%Q with (q - inject_Z (qtrunc q))%Q by ring. exact Q1.
+Qed.
+Local Transparent lane_of ks_of is_ks texts_eqb.
+
+(* a hold: EndTime = int(offset + length) is within 1 ms of the hold's end *)
+Lemma hold_end_close (o ln : ytree) (qo ql : Q) : num o = Some qo -> num ln = Some ql ->
+  exists v z, cell_add o ln = Some v /\ cast_int v = Some (YInt z) /\ lt1 (inject_Z z) (qo + ql) = true.
+Proof.
+  intros Ho Hl. destruct o; simpl in Ho; inversion Ho; subst; destruct ln; simpl in Hl; inversion Hl; subst; simpl.
+  - exists (YInt (z + z0)), (z + z0). split; [reflexivity|]. split; [reflexivity|].
+    apply lt1_true. rewrite inject_Z_plus. apply Qabs_lt1; lra.
+  - eexists _, _. split; [reflexivity|]. split; [reflexivity|]. apply lt1_true.
+    pose proof (qtrunc_lt1 (Qred (inject_Z z + ql))) as T. rewrite <- Qabs_opp.
+    rewrite Qred_correct in T at 1.
+    setoid_replace (- (inject_Z (qtrunc (Qred (inject_Z z + ql))) - (inject_Z z + ql)))%Q
+      with (inject_Z z + ql - inject_Z (qtrunc (Qred (inject_Z z + ql))))%Q by ring. exact T.
+  - eexists _, _. split; [reflexivity|]. split; [reflexivity|]. apply lt1_true.
+    pose proof (qtrunc_lt1 (Qred (qo + inject_Z z))) as T. rewrite <- Qabs_opp.
+    rewrite Qred_correct in T at 1.
+    setoid_replace (- (inject_Z (qtrunc (Qred (qo + inject_Z z))) - (qo + inject_Z z)))%Q
+      with (qo + inject_Z z - inject_Z (qtrunc (Qred (qo + inject_Z z))))%Q by ring. exact T.
+  - eexists _, _. split; [reflexivity|]. split; [reflexivity|]. apply lt1_true.
+    pose proof (qtrunc_lt1 (Qred (qo + ql))) as T. rewrite <- Qabs_opp.
+    rewrite Qred_correct in T at 1.
+    setoid_replace (- (inject_Z (qtrunc (Qred (qo + ql))) - (qo + ql)))%Q
+      with (qo + ql - inject_Z (qtrunc (Qred (qo + ql))))%Q by ring. exact T.
 Qed.
